@@ -199,12 +199,8 @@ macro_rules! assert_vfs_no_dir {
             Ok(x) => x,
             _ => panic_msg!("assert_vfs_no_dir!", "failed to get absolute path", $path),
         };
-        if $vfs.exists(&target) {
-            if !$vfs.is_dir(&target) {
-                panic_msg!("assert_vfs_no_dir!", "exists and is not a directory", &target);
-            } else {
-                panic_msg!("assert_vfs_no_dir!", "directory still exists", &target);
-            }
+        if $vfs.is_dir(&target) {
+            panic_msg!("assert_vfs_no_dir!", "directory still exists", &target);
         }
     };
 }
@@ -253,12 +249,8 @@ macro_rules! assert_vfs_no_file {
             Ok(x) => x,
             _ => panic_msg!("assert_vfs_no_file!", "failed to get absolute path", $path),
         };
-        if $vfs.exists(&target) {
-            if !$vfs.is_file(&target) {
-                panic_msg!("assert_vfs_no_file!", "exists and is not a file", &target);
-            } else {
-                panic_msg!("assert_vfs_no_file!", "file still exists", &target);
-            }
+        if $vfs.is_file(&target) {
+            panic_msg!("assert_vfs_no_file!", "file still exists", &target);
         }
     };
 }
